@@ -15,6 +15,7 @@ import (
 	"fmt"
 	"os"
 	"sync"
+	"sync/atomic"
 	"testing"
 	"time"
 
@@ -27,13 +28,15 @@ import (
 )
 
 type provCloseSc struct {
-	NoSchedule bool  `json:"no_schedule"` // WithReprovideInterval(0): burst-only mode
-	Keys       int   `json:"keys"`        // keys given to StartProviding before Close (0-4)
-	HoldAt     int   `json:"hold_at"`     // the n-th closest-peers lookup made by the instance is held at the gate (-1: none)
-	HonourCtx  bool  `json:"honour_ctx"`  // the held lookup returns when its context is cancelled (a well-behaved router) or only when released
-	NClose     int   `json:"n_close"`
-	LateOps    []int `json:"late_ops"` // calls made after the first Close call was started: 0 start 1 stop 2 once 3 clear 4 refresh
-	Workers    int   `json:"workers"`
+	NoSchedule bool   `json:"no_schedule"` // WithReprovideInterval(0): burst-only mode
+	Keys       int    `json:"keys"`        // keys given to StartProviding before Close (0-4)
+	HoldAt     int    `json:"hold_at"`     // the n-th closest-peers lookup made by the instance is held at the gate (-1: none)
+	HonourCtx  bool   `json:"honour_ctx"`  // the held lookup returns when its context is cancelled (a well-behaved router) or only when released
+	NClose     int    `json:"n_close"`
+	LateOps    []int  `json:"late_ops"` // calls made after the first Close call was started: 0 start 1 stop 2 once 3 clear 4 refresh
+	Workers    int    `json:"workers"`
+	DSFault    string `json:"ds_fault,omitempty"` // "" | close-time: every datastore call fails once the first Close call has been started | always: every mutation fails
+	Offline    bool   `json:"offline,omitempty"`  // the router finds no peers: the node is offline and its connectivity checker keeps probing
 }
 
 type gateRouter struct {
@@ -45,6 +48,7 @@ type gateRouter struct {
 	entered chan struct{}
 	release chan struct{}
 	peers   []peer.ID
+	offline bool
 }
 
 func (r *gateRouter) GetClosestPeers(ctx context.Context, k string) ([]peer.ID, error) {
@@ -54,7 +58,11 @@ func (r *gateRouter) GetClosestPeers(ctx context.Context, k string) ([]peer.ID, 
 	if h {
 		r.inside++
 	}
+	off := r.offline
 	r.mu.Unlock()
+	if off && !h {
+		return nil, errors.New("verif: no peers")
+	}
 	if h {
 		close(r.entered)
 		if r.honour {
@@ -94,7 +102,7 @@ func TestVerif_C14_SweepingProvider(t *testing.T) {
 		Property: "C14", Part: "sweeping-provider",
 		Rule: "rapid: provider.New over a router with a gate (12 peers), with and without a reprovide schedule, 1-4 workers, 0-4 keys started; optionally the instance's 1st-9th closest-peers lookup (connectivity probe, prefix-length " +
 			"measurement or provide exploration, whichever comes) is held at the gate, by a router that returns on context cancellation or one that does not; 1-3 Close calls started one after the other (each once the previous one returned or is " +
-			"seen blocked), 0-3 further API calls in between, then the gate is released; real time, schedule owned through the gate; oracle: a Close call that has returned leaves no goroutine of the provider, its connectivity checker or its default " +
+			"seen blocked), 0-3 further API calls in between, then the gate is released; the datastore healthy, failing every call from the first Close on, or failing always; the node online or offline (connectivity checker probing); real time, schedule owned through the gate; oracle: a Close call that has returned leaves no goroutine of the provider, its connectivity checker or its default " +
 			"keystore, every call returns after the release, calls after Close do not panic; non-trivial = a lookup was held while a Close call was pending",
 		Gen: func(t *rapid.T) provCloseSc {
 			return provCloseSc{
@@ -106,6 +114,8 @@ func TestVerif_C14_SweepingProvider(t *testing.T) {
 				NClose:    rapid.IntRange(1, 3).Draw(t, "nClose"),
 				LateOps:   rapid.SliceOfN(rapid.IntRange(0, 4), 0, 3).Draw(t, "lateOps"),
 				Workers:   rapid.IntRange(1, 4).Draw(t, "workers"),
+				DSFault:   rapid.SampledFrom([]string{"", "", "close-time", "close-time", "always"}).Draw(t, "dsFault"),
+				Offline:   verifsim.Chance(t, "offline", 25),
 			}
 		},
 		Run: func(t *testing.T, sc provCloseSc) (res verifsim.Result) {
@@ -118,7 +128,11 @@ func TestVerif_C14_SweepingProvider(t *testing.T) {
 				}
 			}
 			defer lap("end")
-			router := &gateRouter{holdAt: sc.HoldAt, honour: sc.HonourCtx, entered: make(chan struct{}), release: make(chan struct{})}
+			router := &gateRouter{holdAt: sc.HoldAt, honour: sc.HonourCtx, entered: make(chan struct{}), release: make(chan struct{}), offline: sc.Offline}
+			dstore := verifsim.NewJournalDS("provider")
+			var dsFailing atomic.Bool
+			dsFailing.Store(sc.DSFault == "always")
+			dstore.FailCall = func(c verifsim.Call) bool { return dsFailing.Load() && c.Op != "close" }
 			for i := 0; i < 12; i++ {
 				router.peers = append(router.peers, peer.ID(pp.IDs[i]))
 			}
@@ -127,7 +141,7 @@ func TestVerif_C14_SweepingProvider(t *testing.T) {
 				interval = 0
 			}
 			prov, err := New(WithReprovideInterval(interval), WithReplicationFactor(4), WithMaxWorkers(sc.Workers), WithDedicatedPeriodicWorkers(0), WithDedicatedBurstWorkers(0),
-				WithPeerID(peer.ID(pp.IDs[63])), WithRouter(router), WithMessageSender(nopSender{}),
+				WithPeerID(peer.ID(pp.IDs[63])), WithRouter(router), WithMessageSender(nopSender{}), WithDatastore(dstore),
 				WithSelfAddrs(func() []ma.Multiaddr { return []ma.Multiaddr{ma.StringCast("/ip4/8.1.1.1/tcp/4001")} }))
 			if err != nil {
 				res.Fail("constructs", "C14/provider/new-error", "%v", err)
@@ -153,6 +167,9 @@ func TestVerif_C14_SweepingProvider(t *testing.T) {
 			lap("held")
 			var calls []*verifsim.RTCall
 			early := ""
+			if sc.DSFault == "close-time" {
+				dsFailing.Store(true) // (a backend that is gone, a full disk, or one that refuses calls made with the provider's cancelled context)
+			}
 			for i := 0; i < sc.NClose; i++ {
 				c := verifsim.RTGo(prov.Close)
 				calls = append(calls, c)
@@ -226,6 +243,12 @@ func TestVerif_C14_SweepingProvider(t *testing.T) {
 			}
 			if sc.NoSchedule {
 				res.Class("no-schedule")
+			}
+			if sc.DSFault != "" {
+				res.Class("datastore-fails-" + sc.DSFault)
+			}
+			if sc.Offline {
+				res.Class("offline")
 			}
 			return
 		},
